@@ -140,10 +140,10 @@ pub fn gen_index_doc(rng: &mut Rng, size: usize, depth: usize) -> Value {
     let n = 1 + rng.below(3);
     let mut line = 0u64;
     let mut secs = vec![];
+    let mut same: Option<(u64, u64)> = None;
     for _ in 0..n {
-        line += rng.below(5);
-        let col = rng.below(20);
-        let mut s = json!({"off": [line, col]});
+        let (l, col) = match same.take() { Some(o) => o, None => { line += rng.below(5); (line, rng.below(20)) } };
+        let mut s = json!({"off": [l, col]});
         match rng.below(6) {
             0 => { s["url"] = json!(["http://x/sub.map"]); }
             1 if depth > 0 => { s["map"] = json!([gen_index_doc(rng, size, depth - 1)]); }
@@ -154,6 +154,8 @@ pub fn gen_index_doc(rng: &mut Rng, size: usize, depth: usize) -> Value {
         // a section may carry a url NEXT TO its embedded map
         if s.get("map").is_some() && rng.chance(1, 6) { s["url"] = json!(["http://x/also.map"]); }
         secs.push(s);
+        // now and then the next section starts at the very same offset (file order is kept among equals)
+        if rng.chance(1, 10) { same = Some((l, col)); continue; }
         line += 1 + rng.below(30);
     }
     let mut d = json!({"version": [3], "sections": [secs]});
